@@ -377,7 +377,7 @@ func (g *Gen) inlineOrAtom(c ctx) []*Node {
 		} else {
 			cc.depth--
 			n.Kids = g.flowKids(cc)
-			if tag == "slot" || tag == "x-y" || tag == "my-el" {
+			if tag == "slot" { // custom elements: repaired in /repo (K17), slot remains
 				g.avoidTrailingP(n)
 			}
 		}
@@ -1760,11 +1760,12 @@ func (g *Gen) finish(n *Node) {
 // elements after which the minifier does not reset its "omit next leading space" state although a
 // rendered atomic box (embed, audio[controls]) or an invisible element (template) separates the texts
 func spaceEater(n *Node) bool {
-	return n.isElem("embed", "audio", "template", "datalist")
+	// embed / audio: repaired in /repo (objectTag); template / datalist remain (finding K107)
+	return n.isElem("template", "datalist")
 }
 
 var genBlockish = setOf("div p section article aside nav header footer main h1 h2 h3 h4 h5 h6 hgroup ul ol menu li dl dt dd blockquote pre figure figcaption address details summary fieldset legend form table caption colgroup col thead tbody tfoot tr td th hr dialog br option optgroup noscript body html head title style")
-var genObjectish = setOf("button canvas iframe img input meter object progress q rt select svg math textarea video wbr marquee")
+var genObjectish = setOf("button canvas iframe img input meter object progress q rt select svg math textarea video wbr marquee embed audio")
 
 // trimNextLeadingSpace walks forward in document order from position (kids,i) and removes the leading white
 // space of the first text met before any block or object boundary. Returns true when it is done (stop climbing).
